@@ -681,10 +681,10 @@ def check_outputs(run, slot, algo, policy, outs, where, regime):
     else:
         if len(costs_seen) != len(outs):
             # some output is not a valid solution (reported above when in focus): nothing
-            # can be concluded from its cost by the other properties - except C09, which is
-            # about what the package returns (reported cost, returned set) staying the same
-            # under re-presentation, whether or not it is right
-            if run.focus == "C09" and slot.binary:
+            # can be concluded from its cost by the other properties - except C09 and C10,
+            # which relate what the package returns (reported cost, returned set) across
+            # presentations / algorithms, whether or not it is right
+            if run.focus in ("C09", "C10") and slot.binary:
                 try:
                     raw_costs = [o.cost() for o in outs]
                     raw_keys = [canon.output_key(o, labelled) for o in outs]
